@@ -1,6 +1,33 @@
 package main
 
+var e2RealStub = map[string]string{
+	"rapid engine/generators": "real code rebuilt from /repo's working tree; sync operations mechanically rewritten into scheduler yield points (Lock -> TryLock loop, Unlock, Once.Do, yields before atomics / sync.Map) by a go/types-driven tool",
+	"Go runtime, sync, context, race detector": "real (Go 1.26.8, -race)",
+	"goroutine scheduler": "stub: baton scheduler decides every switch at yield points; real goroutines parked in raw futex waits (no happens-before edge from the harness)",
+	"testing.TB":          "stub: e2TB (norace recording)",
+	"clock":               "real but irrelevant (shrinktime 1h, 24h deadline, runs last milliseconds)",
+	"file system":         "not used (-rapid.nofailfile)",
+	"user code":           "stub: generated operation lists per simulated goroutine",
+}
+
 func init() {
+	props["C15"] = &propCfg{Engine: "E2", Level: "exploration", QuickRuns: 1500, ThoroughMax: 4_000_000, Race: true, Instrument: true, RealStub: e2RealStub,
+		Rule:        "one run = one freshly built generator expression (nesting of IntRange, Filter, Map, OneOf, Deferred, Custom, StringMatching, String, SampledFrom, SliceOfN; depth <= 4) shared by 2-4 simulated goroutines, each performing one use with its own T: a passing Check, a failing (minimizing) Check, Example(seed), String(), or use as a sub-generator; first uses race with later uses under a tape-chosen schedule policy; afterwards every use is repeated alone on a fresh generator and compared; non-trivial = every run (>= 2 goroutines share one generator); distinct by hash(schedule fingerprint, generator expression, uses)",
+		SimTimeNote: "0: no clock in the scheduled sections; simulated time is not a dimension of this property"}
+	props["C14"] = &propCfg{Engine: "E2", Level: "exploration", QuickRuns: 2000, ThoroughMax: 4_000_000, Race: true, Instrument: true, RealStub: e2RealStub,
+		Rule:        "one run = a Check (checks 1-3, -rapid.v on/off, optionally on a Custom generator's inner T) whose property spawns 1-4 simulated goroutines, each with 1-6 tape-chosen operations from {Helper, Name, Log, Logf, Error, Errorf, Fail, Failed, Context, Cleanup(f)} while the main goroutine does the same; every invocation of the property is one scheduled section under a tape-chosen policy (uniform / bursty / PCT d=1..3); non-trivial = at least one section with >= 2 goroutines; distinct by hash(schedule fingerprints of all sections, operation lists)",
+		SimTimeNote: "0: no clock in the scheduled sections; simulated time is not a dimension of this property"}
+	props["C16"] = &propCfg{Engine: "E3", Level: "fault_enumeration", QuickRuns: 6, ThoroughMax: 400,
+		Rule:        "one workload = (test name, 0-200 captured output lines -> that many write calls, 0-64 element bitstream, failure kind, pre-existing directory or not) saved by a real failing Check in a single-threaded child; its baseline strace gives the ordered list of FS-affecting calls under testdata/ (mkdirat, openat O_CREAT, every write, close, renameat, unlinkat); EVERY one of them is a crash point: a fresh child is SIGKILLed by strace on entry to that call (trace-prefix equality with the baseline is required, else the run is discarded), then the directory is judged (J1 byte comparison of every *.fail file with the uninterrupted save, J2 behaviour of a fresh process); distinct non-trivial = killed children whose trace matched",
+		SimTimeNote: "0: real kernel FS and real (irrelevant) clock; the explored dimension is the crash point",
+		RealStub: map[string]string{
+			"rapid engine/persistence": "real code rebuilt from /repo's working tree",
+			"file system":              "real kernel FS in a private scratch directory",
+			"process crash":            "real SIGKILL injected by strace on entry to the chosen system call of the child's main thread",
+			"testing.TB":               "stub: simTB",
+			"clock":                    "real (no deadline can be reached: shrinktime=0, runs last milliseconds)",
+			"user code":                "stub: generated property program",
+		}}
 	props["C17"] = &propCfg{Engine: "E1", Level: "exploration", QuickRuns: 2000, ThoroughMax: 4_000_000, RealStub: e1RealStub,
 		Rule:        "one run = faults on durable state: a valid fail file is produced by a real failing run of a variant program, then 1-4 siblings are planted: truncation at any offset, single-bit flip, garbage, empty, NULs, >64KiB line, huge/negative/non-hex numbers, missing/doubled/extra version field, foreign version, CRLF, only comments, a directory or dangling symlink named *.fail, or the intact file while the test now passes; then the target program (passing or failing) runs with the files present and, for reference, in an empty directory; in the thorough tier half of the runs enumerate every truncation offset and every single-bit flip of a fixed reference file; non-trivial = a reference file existed and the differential pair ran; distinct by hash(target program, fault kinds and arguments, seed)",
 		SimTimeNote: "sum of fake-clock advance inside synctest bubbles"}
